@@ -59,6 +59,8 @@ def family(seed, tier):
         docs.append((s.s["name"], s.doc()))
         g = scen.legacy_chain(seed * 10 + k, name="c12-leg-%d" % k, tip=26)
         docs.append((g.s["name"], g.doc()))
+    g = scen.snapshot_gap_chain(seed, name="c12-snapgap")
+    docs.append((g.s["name"], g.doc()))
     return docs
 
 
